@@ -14,6 +14,8 @@ structure SState where
   sets : List (Nat × String × String) := []
   /-- layers whose option list was edited through the raw interface (add / remove by code): not tracked any more -/
   poison : List Nat := []
+  /-- C04, codec half: (layer index, setter name) of every typed setter that was accepted since `new` (first call only) -/
+  typed : List (Nat × String) := []
 
 structure Layer where
   cls : String
@@ -211,7 +213,7 @@ def spec04 (st : SState) (line : String) : SState × String :=
   | none => (st, "bad-line")
   | some (op, common, _) =>
     match words op with
-    | ["new"] => ({ st with sets := [], poison := [] }, "unspecified")
+    | ["new"] => ({ st with sets := [], poison := [], typed := [] }, "unspecified")
     | "set" :: idx :: name :: rest =>
       if (words common).head? != some "ok" then (st, "unspecified") else
       match idx.toNat? with
@@ -226,8 +228,13 @@ def spec04 (st : SState) (line : String) : SState × String :=
             else (st, "unspecified")
           | _ => (st, "unspecified")
         else if name.startsWith "add_" || name.startsWith "remove_" || name == "end_of_list" || name == "vendor_specific" then
-          ({ st with sets := st.sets.filter (fun e => e.1 != i), poison := i :: st.poison }, "unspecified")
-        else (st, "unspecified")
+          ({ st with sets := st.sets.filter (fun e => e.1 != i), typed := st.typed.filter (fun e => e.1 != i),
+                     poison := i :: st.poison }, "unspecified")
+        -- representability: RFC 8415 §21.15 — a User Class option holds one or more instances of user class data, so the empty
+        -- list is not an argument the option can express (libtins encodes it as a zero-length option and rejects that)
+        else if name == "user_class" && rest == ["empty"] then (st, "unspecified")
+        else if st.typed.contains (i, name) then (st, "unspecified")
+        else ({ st with typed := (i, name) :: st.typed }, "unspecified")
     | ["show"] =>
       let cw := words common
       match cw with
@@ -240,9 +247,19 @@ def spec04 (st : SState) (line : String) : SState × String :=
               | some f => if f.2 == v then none else some s!"layer {i} {name} set={v.take 60} get={f.2.take 60}"
               | none => none
             | none => none)
-          match bad with
-          | b :: _ => (st, s!"violates last-value-set {b}")
-          | [] => specReparse st line
+          -- codec half: a typed setter was accepted, so the typed getter of the SAME object (dumped under the setter's
+          -- name) must decode what the setter encoded: "bad" / "mp" / "!<exception>" there means encoder and decoder
+          -- are not inverse on that value
+          let undec := st.typed.filterMap (fun (i, name) =>
+            match ls[i]? with
+            | some l => match l.fields.find? (fun f => f.1 == name) with
+              | some f => if f.2 == "bad" || f.2 == "mp" || f.2.startsWith "!" then some s!"layer {i} {name} get={f.2.take 40}" else none
+              | none => none
+            | none => none)
+          match bad, undec with
+          | b :: _, _ => (st, s!"violates last-value-set {b}")
+          | [], u :: _ => (st, s!"violates getter-rejects-own-setter {u}")
+          | [], [] => specReparse st line
         | none => specReparse st line
       | _ => specReparse st line
     | _ => specReparse st line
